@@ -1242,36 +1242,43 @@ impl QueryPlan {
             }
             Func2(Like, ref expr, ref pattern) => match pattern {
                 box Const(RawVal::Str(pattern)) => {
-                    let mut pattern = pattern.to_string();
-                    pattern = regex::escape(&pattern);
-                    pattern = Regex::new(r"([^\\])_")
-                        .unwrap()
-                        .replace_all(&pattern, "$1.")
-                        .to_string();
-                    pattern = Regex::new(r"\\_")
-                        .unwrap()
-                        .replace_all(&pattern, "_")
-                        .to_string();
-                    while pattern.contains("%%%%") {
-                        pattern = pattern.replace("%%%%", "%%");
+                    // `_` matches one character, `%` any sequence; `\_` is a literal underscore and `%%` a literal percent
+                    // sign (an odd run of three or more `%` is a literal `%` per pair plus one wildcard on either side).
+                    let mut regex_pattern = String::new();
+                    let chars = pattern.chars().collect::<Vec<_>>();
+                    let mut i = 0;
+                    while i < chars.len() {
+                        match chars[i] {
+                            '\\' if i + 1 < chars.len() && chars[i + 1] == '_' => {
+                                regex_pattern.push('_');
+                                i += 2;
+                            }
+                            '_' => {
+                                regex_pattern.push('.');
+                                i += 1;
+                            }
+                            '%' => {
+                                let mut run = 0;
+                                while i < chars.len() && chars[i] == '%' {
+                                    run += 1;
+                                    i += 1;
+                                }
+                                let literal = "%".repeat(run / 2);
+                                if run % 2 == 0 {
+                                    regex_pattern.push_str(&literal);
+                                } else if run == 1 {
+                                    regex_pattern.push_str(".*");
+                                } else {
+                                    regex_pattern.push_str(&format!("(?:{}.*|.*{})", literal, literal));
+                                }
+                            }
+                            c => {
+                                regex_pattern.push_str(&regex::escape(&c.to_string()));
+                                i += 1;
+                            }
+                        }
                     }
-                    pattern = pattern.replace("%%%", "(%.*)|(.*%)");
-                    pattern = Regex::new(r"([^%])%([^%])")
-                        .unwrap()
-                        .replace_all(&pattern, "$1.*$2")
-                        .to_string();
-                    pattern = Regex::new(r"^%([^%])")
-                        .unwrap()
-                        .replace_all(&pattern, ".*$1")
-                        .to_string();
-                    pattern = Regex::new(r"([^%])%$")
-                        .unwrap()
-                        .replace_all(&pattern, "$1.*")
-                        .to_string();
-                    pattern = Regex::new(r"%%")
-                        .unwrap()
-                        .replace_all(&pattern, "%")
-                        .to_string();
+                    let mut pattern = regex_pattern;
                     pattern = format!("^{}$", pattern);
                     let (mut plan, t) =
                         QueryPlan::compile_expr(expr, filter, columns, column_len, planner)?;
